@@ -3,6 +3,7 @@ package main
 import (
 	"context"
 	"fmt"
+	"math"
 	"os"
 	"sort"
 	"strconv"
@@ -86,17 +87,23 @@ func (r *runner) newWL(f []string) string {
 	if len(f) != 5 || (f[1] != "lru" && f[1] != "tlru") || (f[4] != "simple" && f[4] != "xhash") {
 		return "bad-op"
 	}
-	if !decimal(f[2], false) || len(f[2]) > 6 {
+	if !decimal(f[2], false) || len(f[2]) > 19 {
 		return "bad-op"
 	}
-	capacity, _ := strconv.ParseInt(f[2], 10, 64)
+	capacity, perr := strconv.ParseInt(f[2], 10, 64)
+	if perr != nil {
+		return "bad-op"
+	}
 	n, ok := parseN(f[3])
 	if !ok || n == 0 || n > 4096 {
 		return "bad-op"
 	}
 	opt := remap.WithPrime(n)
 	w := &wlState{n: n, xhash: f[4] == "xhash", rm: remap.NewReMap(opt), seen: map[int]bool{}}
-	per := capacity/int64(n) + 1
+	per := capacity / int64(n) // the intended per-shard capacity capacity/n + 1, without int64 wrap-around
+	if per < math.MaxInt64 {
+		per++
+	}
 	switch {
 	case f[1] == "lru" && w.xhash:
 		w.name, w.wide = "cache.WideLRUCache", sizedOne{cache.NewWideXHashLRUCache(capacity, opt)}
@@ -225,6 +232,9 @@ type pending struct {
 type lockAPI interface {
 	acquire(keys []key, write, multi bool, tok map[string]*semap.Weighted)
 	release(keys []key, write, multi bool, tok map[string]*semap.Weighted)
+	// counts: (readers, writers) registered for the key's entry, read through the package's verif hook at quiescence
+	// (ok=false: not available)
+	counts(k key) (r, w int, ok bool)
 }
 
 type klockAPI struct{ l keylock.Locker }
@@ -244,7 +254,17 @@ func (a klockAPI) release(keys []key, write, multi bool, _ map[string]*semap.Wei
 	}
 }
 
+func (a klockAPI) counts(k key) (int, int, bool) {
+	r, w, _ := keylock.VerifKeyCounts(a.l, k.v)
+	return r, w, r >= 0
+}
+
 type tlockAPI[T comparable] struct{ l keylock.TLocker[T] }
+
+func (a tlockAPI[T]) counts(k key) (int, int, bool) {
+	r, w, _ := keylock.VerifTKeyCounts(a.l, k.v.(T))
+	return r, w, r >= 0
+}
 
 func (a tlockAPI[T]) ks(keys []key) []T {
 	var out []T
@@ -279,6 +299,8 @@ func (a tlockAPI[T]) release(keys []key, write, multi bool, _ map[string]*semap.
 }
 
 type semapAPI struct{ m semap.SemMapper }
+
+func (a semapAPI) counts(k key) (int, int, bool) { return 0, 0, false }
 
 func (a semapAPI) acquire(keys []key, write, multi bool, tok map[string]*semap.Weighted) {
 	var w *semap.Weighted
@@ -423,12 +445,15 @@ func (r *runner) locksOp(f []string) string {
 			}
 		}
 	}
+	// a WRITE list must not repeat a key (self-deadlock); a READ list may, and then takes the key once per mention
 	dup := map[string]bool{}
+	cnt := map[string]int{}
 	for _, nm := range names {
-		if dup[nm] {
+		if dup[nm] && write {
 			return "bad-op"
 		}
 		dup[nm] = true
+		cnt[nm]++
 	}
 	if r.lockBroken {
 		// the group already misbehaved in this script: its internal state no longer matches the table of holders, and
@@ -469,6 +494,7 @@ func (r *runner) locksOp(f []string) string {
 		if sw != sr && !r.lockBroken {
 			r.lockHit("C17:"+ls.name+":differs-from-unsharded", fmt.Sprintf("group: %s, single locker: %s; %s", sw, sr, ctx))
 		}
+		ls.compareCounts(r, keys, ctx)
 		switch sw {
 		case "ret":
 			for _, nm := range names {
@@ -485,14 +511,14 @@ func (r *runner) locksOp(f []string) string {
 	if ls.wait != nil && ls.wait.t == t {
 		return "bad-op"
 	}
-	for _, nm := range names {
-		found := false
+	for nm, c := range cnt {
+		have := 0
 		for _, h := range ls.holds {
 			if h.t == t && h.key == nm && h.write == write {
-				found = true
+				have++
 			}
 		}
-		if !found {
+		if have < c {
 			return "bad-op"
 		}
 	}
@@ -517,11 +543,18 @@ func (r *runner) locksOp(f []string) string {
 	if sr != "ret" {
 		r.lockHit("C17:"+ls.name+":differs-from-unsharded", fmt.Sprintf("group: %s, single locker: %s; %s", sw, sr, ctx))
 	}
+	ls.compareCounts(r, keys, ctx)
 	var rest []hold
+	left := map[string]int{}
+	for nm, c := range cnt {
+		left[nm] = c
+	}
 	for _, h := range ls.holds {
-		if !(h.t == t && h.write == write && dup[h.key]) {
-			rest = append(rest, h)
+		if h.t == t && h.write == write && left[h.key] > 0 {
+			left[h.key]-- // one hold given back per mention of the key
+			continue
 		}
+		rest = append(rest, h)
 	}
 	ls.holds = rest
 	out := "ret"
@@ -553,6 +586,23 @@ func (r *runner) locksOp(f []string) string {
 	return out
 }
 
+// compareCounts: at quiescence the key's entry in its shard must register as many readers and writers (holding or
+// waiting) as the single locker's entry does — read through the keylock verif hooks. A multi-key call that takes a key
+// fewer times, or in another shard, shows here before any later release could hit a mutex that is not held.
+func (ls *locksState) compareCounts(r *runner, keys []key, ctx string) {
+	if r.lockBroken {
+		return
+	}
+	for _, k := range keys {
+		rw, ww, ok1 := ls.wide.counts(k)
+		rr, wr, ok2 := ls.ref.counts(k)
+		if ok1 && ok2 && (rw != rr || ww != wr) {
+			r.lockHit("C17:"+ls.name+":holds-differ-from-unsharded", fmt.Sprintf("key %s:%s: the group's shard registers %d reader(s) / %d writer(s), the single locker %d / %d; %s", k.ty, k.text, rw, ww, rr, wr, ctx))
+			return
+		}
+	}
+}
+
 func (r *runner) lockHit(key, what string) {
 	r.lockBroken = true
 	r.hit(key, what)
@@ -577,34 +627,8 @@ func parseNatTok(s string) (int, bool) {
 	return n, err == nil
 }
 
-// locksCleanup releases what the script left held so that blocked goroutines of this case end.
-func (r *runner) locksCleanup() {
-	ls := r.ls
-	if ls == nil {
-		return
-	}
-	r.ls = nil
-	if r.lockBroken {
-		return // the two sides no longer agree with the table of holders: release nothing (an Unlock of a mutex that is not held is fatal)
-	}
-	sides := []struct {
-		api lockAPI
-		tok map[int]map[string]*semap.Weighted
-	}{{ls.ref, ls.tokR}, {ls.wide, ls.tokW}}
-	// never on the harness goroutine: a release that panics inside the locker can leave its internal mutex locked,
-	// and the next call would then block for ever
-	for _, side := range sides {
-		for _, h := range ls.holds {
-			h, side := h, side
-			k, ok := parseKey(h.key + ":0")
-			if !ok {
-				continue
-			}
-			t := ls.s.Go("cleanup", func() string { side.api.release([]key{k}, h.write, h.multi, ls.tok(side.tok, h.t)); return "ret" })
-			_ = ls.s.Settle()
-			if t.State() != "ret:ret" {
-				return
-			}
-		}
-	}
-}
+// locksCleanup: nothing is released at the end of a lock script. Group and reference locker are fresh objects per
+// script, so what stays held or blocked harms nobody (the parked goroutines end with the child process); and on a
+// defective group the table of holders may be off, where one release too many of a sync.RWMutex is a FATAL runtime
+// error that no recover() catches.
+func (r *runner) locksCleanup() { r.ls = nil }
